@@ -179,6 +179,10 @@ def run(ctx):
     handoffs(ctx)
     # ---------------- C01-5 roll-ups
     rollups(ctx)
+    # the losses REPORTED for a locomotive / consist are the sums of its components' ledger losses (clause of C11-4, shared)
+    from .common import RuleProxy
+    from . import C11
+    C11.getters(RuleProxy(ctx, {'C11-4.getters': 'C01-5.rollup'}, key_filter=lambda k: 'get_energy_loss' in k))
 
 
 def handoffs(ctx):
